@@ -117,11 +117,27 @@ func (w *World) fnInfo(fn *ssa.Function) *fnInfo {
 			case *ssa.Go, *ssa.MakeChan:
 				i.rejects = true
 				i.soft = true
-			case *ssa.Select, *ssa.Send:
+			case *ssa.Select:
 				// tolerated in the sequential-channel mode when every channel involved is of a modelled kind
-				// (decided during execution)
 				i.rejects = true
-				i.soft = true
+				ok := true
+				for _, s := range x.States {
+					if !modelledChanType(s.Chan.Type()) {
+						ok = false
+					}
+				}
+				if ok {
+					i.soft = true
+				} else {
+					i.hard = true
+				}
+			case *ssa.Send:
+				i.rejects = true
+				if modelledChanType(x.Chan.Type()) {
+					i.soft = true
+				} else {
+					i.hard = true
+				}
 			case *ssa.Defer:
 				if !isMutexCall(&x.Call) {
 					i.rejects = true
